@@ -5,22 +5,31 @@
 package merkle
 
 //@ spec H2(l Bytes, r Bytes) Bytes
-//@ spec proofOK(s Slice, e IntBytesArr, index Int, total Int, leaf Bytes, root Bytes) Bool
+//@ define proofOK(s Slice, e IntBytesArr, index Int, total Int, leaf Bytes, root Bytes) Bool = mroot(index, total, leaf, e, off(s), len(s)) != nil && bytesEq(mroot(index, total, leaf, e, off(s), len(s)), root)
 
 //@ func SimpleHashFromTwoHashes
 //@   trusted
 //@   pure
 //@   ensures result == H2(left, right) && result != nil
 
+// mroot(i, t, leaf, e, o, k): the root computed from leaf hash `leaf` at position i of t leaves and the first k aunts
+// e[o..o+k) (nil when the number of aunts is not exactly the depth of that leaf or the position is out of range)
+//@ spec mroot(i Int, t Int, leaf Bytes, e IntBytesArr, o Int, k Int) Bytes
+
 //@ func computeHashFromAunts
 //@   props C17 C08
 //@   pure
+//@   defines forall(i, Int, forall(t, Int, forall(leaf, Bytes, forall(e, IntBytesArr, forall(o, Int, forall(k, Int, trigger(mroot(i, t, leaf, e, o, k)), mroot(i, t, leaf, e, o, k) == ite(i < 0 || i >= t || t <= 0, nil, ite(t == 1, ite(k != 0, nil, leaf), ite(k <= 0, nil, ite(i < (t+1)/2, ite(mroot(i, (t+1)/2, leaf, e, o, k-1) == nil, nil, H2(mroot(i, (t+1)/2, leaf, e, o, k-1), e[o+k-1])), ite(mroot(i-(t+1)/2, t-(t+1)/2, leaf, e, o, k-1) == nil, nil, H2(e[o+k-1], mroot(i-(t+1)/2, t-(t+1)/2, leaf, e, o, k-1)))))))))))))
+//@   ensures [root-is-the-fold-of-leaf-and-aunts] result == mroot(index, total, leafHash, elems(innerHashes), off(innerHashes), len(innerHashes))
 //@   ensures (index < 0 || index >= total) ==> result == nil
 //@   ensures total <= 0 ==> result == nil
 
+// a proof verifies exactly when the fold of the leaf hash with the aunts is defined (right number of aunts for that position)
+// and equals the root
 //@ func (*SimpleProof).Verify
 //@   props C17 C08
 //@   requires sp != nil
 //@   pure
 //@   ensures result ==> 0 <= index && index < total
-//@   trusted-ensures result == proofOK(sp.Aunts, elems(sp.Aunts), index, total, leafHash, rootHash)
+//@   ensures [verifies-iff-fold-equals-root] result == (mroot(index, total, leafHash, elems(sp.Aunts), off(sp.Aunts), len(sp.Aunts)) != nil && bytesEq(mroot(index, total, leafHash, elems(sp.Aunts), off(sp.Aunts), len(sp.Aunts)), rootHash))
+//@   ensures result == proofOK(sp.Aunts, elems(sp.Aunts), index, total, leafHash, rootHash)
